@@ -162,7 +162,7 @@ structure AgInv (m0 : Mem) (bk bl0 fa cell bu be : Nat) (names0 : List (List UIn
   loc : ∃ v7 v8 v9, st.loc = [.ptr bk 0, .ptr cell 0, .ptr bu 0, .ptr be 0, .int (start : Int), .int ((start + sel.length : Nat) : Int), .int (i : Int), v7, v8, v9]
   agree : ∀ b, b < m0.length → b ∉ [bk, bl0, fa] → st.mem[b]? = m0[b]?
   grows : m0.length ≤ st.mem.length
-  dest : ∃ bl' gl', GlMem st.mem bk bl' gl' ∧ (bl' = bl0 ∨ m0.length ≤ bl') ∧ (∀ blk, st.mem[bk]? = some blk → blk.writable = true) ∧ bk ≠ bl' ∧
+  dest : ∃ bl' gl', GlMem st.mem bk bl' gl' ∧ (bl' = bl0 ∨ m0.length ≤ bl') ∧ (∀ kb blk, m0[bk]? = some kb → st.mem[bk]? = some blk → KfKeep kb blk) ∧ (gl' ≠ [] → bk ≠ bl') ∧
       (∀ x, x ∈ gl' → x.1 ≠ bk ∧ x.1 ≠ bl') ∧ gl'.length ≤ gl0len + sel.length ∧
       gl'.map (·.2) = (sel.map (·.group)).foldl Econf.addGroup names0 ∧
       ∀ j (h : j < sel.length), EntMem st.mem fa (7 * (start + j)) (Econf.cpyEntry (sel[j])) [bk, bl']
@@ -178,14 +178,8 @@ theorem AgInv.frame {m0 : Mem} {bk bl0 fa cell bu be : Nat} {names0 : List (List
   obtain ⟨ablk, a1, a2, a3, a4, a5, a6⟩ := h.arr
   have hg := h.grows
   refine ⟨⟨v7, v8, v9, rfl⟩, fun b hb hav => by rw [hm b (by omega)]; exact h.agree b hb hav, by simp; omega, ?_, ⟨ablk, by rw [hm fa (by omega)]; exact a1, a2, a3, a4, a5, a6⟩⟩
-  have hG' : GlMem mem' bk bl' gl' := by
-    obtain ⟨kblk, k1, k2, k3, k4⟩ := d1.kf
-    obtain ⟨gblk, g1, g2, g3, g4⟩ := d1.arr
-    refine ⟨⟨kblk, by rw [hm bk (List.getElem?_eq_some_iff.1 k1).1]; exact k1, k2, k3, k4⟩,
-      ⟨gblk, by rw [hm bl' (List.getElem?_eq_some_iff.1 g1).1]; exact g1, g2, g3, fun i hi => ?_⟩⟩
-    obtain ⟨e1, e2⟩ := g4 i hi
-    exact ⟨e1, by rw [cstr_congr (hm _ (cstr_lt e2))]; exact e2⟩
-  refine ⟨bl', gl', hG', d2, fun blk hb => d3 blk (by rw [← hm bk (by omega)]; exact hb), d4, d5, d6, d7, fun j hj => (d8 j hj).mono (fun b hb _ => hm b hb)⟩
+  have hG' : GlMem mem' bk bl' gl' := d1.grow hm
+  refine ⟨bl', gl', hG', d2, fun kb blk hk hb => d3 kb blk hk (by rw [← hm bk (by omega)]; exact hb), d4, d5, d6, d7, fun j hj => (d8 j hj).mono (fun b hb _ => hm b hb)⟩
 
 /-- what the caller of `add_new_groups` provides -/
 structure AgCtx (m0 : Mem) (bk bl0 fa cell bu bua be bea : Nat) (us es : List Econf.Entry) (gl0len cap start : Nat) : Prop where
@@ -323,9 +317,11 @@ theorem ag_round {m0 : Mem} {bk bl0 fa cell bu bua be bea : Nat} {us es : List E
             (start + (selBy (agP us) es i).length) (by omega)
         have hfalt := C.fa_lt
         have hgrow : m0.length ≤ (mem ++ [noneLit]).length := h1.grows
+        obtain ⟨kb0, hkb0⟩ : ∃ kb0, m0[bk]? = some kb0 := ⟨_, List.getElem?_eq_getElem C.bk_lt⟩
+        obtain ⟨kbM, hkbM, _⟩ := d1.obj
         obtain ⟨m', bl'', gl'', hex, hEnt, hG', hnames, hfr, ⟨ablk', b1, b2, b3, b4, b5, b6⟩, hlen', hblor, hkw', hne', hd', hgll, hfreshv⟩ :=
           C_fe_append (mem ++ [noneLit]) bk bl' cell fa bea (7 * i) gl' es[i] _ _ agSrc (.incdec (.var 5) true true .u64) 7 (start + (selBy (agP us) es i).length) cap
-            d1 hE d3 d4 d5 (by omega) (C.lines _ (List.getElem_mem hi)) fuel (by omega) rfl rfl (by simp) (by decide) hsrc hidx rfl
+            d1 hE (fun blk hb => (d3 kb0 blk hkb0 hb).1) d4 d5 (by omega) (C.lines _ (List.getElem_mem hi)) fuel (by omega) rfl rfl (by simp) (by decide) hsrc hidx rfl
             cblk hcM c2 c3 ⟨hcav.1, hbl'ne cell hclt hcav.2.1⟩ ablk a1 a2 a3 a5 a4 ⟨C.fa_ne.1, hbl'ne fa C.fa_lt C.fa_ne.2⟩ (by
               have hr := C.room
               have h1' := selBy_length_mono (agP us) es (i := i + 1) (n := es.length) (by omega)
@@ -354,7 +350,7 @@ theorem ag_round {m0 : Mem} {bk bl0 fa cell bu bua be bea : Nat} {us es : List E
             simp only [List.mem_cons, List.not_mem_nil, or_false, not_or] at hav
             rw [hfr b (by omega) hav.1 (hbl'ne b hb hav.2.1) hav.2.2]
             exact h1.agree b hb (by simp [hav])
-          · refine ⟨bl'', gl'', hG', ?_, hkw', hne', hd', by simp; omega, ?_, ?_⟩
+          · refine ⟨bl'', gl'', hG', ?_, fun kb blk hk hb => (d3 kb kbM hk hkbM).trans (hkw' kbM blk hkbM hb), hne', hd', by simp; omega, ?_, ?_⟩
             · rcases hblor with e | e
               · rw [e]; exact d2
               · right; omega
@@ -442,15 +438,6 @@ theorem EntMem.reblock {m m' : Mem} {fa fa' os : Nat} {e : Econf.Entry} {av av' 
     ⟨va, by simpa using word 4 _ (by omega) (by simpa using a1), optOk _ _ a2 a3, fun b hb => hav b (a2.lt b hb) (a3 b hb)⟩,
     by simpa using word 5 _ (by omega) (by simpa using h.line)⟩
 
-/-- the group list read through the blocks it uses only -/
-theorem GlMem.mono_of {m m' : Mem} {bk bl : Nat} {gl : List (Nat × List UInt8)} (h : GlMem m bk bl gl)
-    (hk : m'[bk]? = m[bk]?) (hl : m'[bl]? = m[bl]?) (hs : ∀ b str, m.cstr b 0 = .ok str → (∃ e, e ∈ gl ∧ e.1 = b) → m'[b]? = m[b]?) : GlMem m' bk bl gl := by
-  obtain ⟨kblk, k1, k2, k3, k4⟩ := h.kf
-  obtain ⟨gblk, g1, g2, g3, g4⟩ := h.arr
-  refine ⟨⟨kblk, by rw [hk]; exact k1, k2, k3, k4⟩, ⟨gblk, by rw [hl]; exact g1, g2, g3, fun i hi => ?_⟩⟩
-  obtain ⟨e1, e2⟩ := g4 i hi
-  exact ⟨e1, by rw [cstr_congr (hs _ _ e2 ⟨gl[i], List.getElem_mem hi, rfl⟩)]; exact e2⟩
-
 /-- a block without character cells holds no string -/
 theorem no_cstr {m : Mem} {b : Nat} {blk : Block} (h1 : m[b]? = some blk) (h2 : blk.cells = []) (str : List UInt8) : m.cstr b 0 ≠ .ok str := by
   intro hc
@@ -464,7 +451,7 @@ theorem no_cstr {m : Mem} {b : Nat} {blk : Block} (h1 : m[b]? = some blk) (h2 : 
 theorem add_new_groups_exec (m : Mem) (bk bl0 fa cell bu bua be bea : Nat) (us es : List Econf.Entry) (gl0 : List (Nat × List UInt8)) (cap start : Nat)
     (C : AgCtx m bk bl0 fa cell bu bua be bea us es gl0.length cap start)
     (hcw : ∀ cblk, m[cell]? = some cblk → cblk.writable = true ∧ cblk.cells = [])
-    (hG : GlMem m bk bl0 gl0) (hkw : ∀ blk, m[bk]? = some blk → blk.writable = true) (hne : bk ≠ bl0) (hd : ∀ x, x ∈ gl0 → x.1 ≠ bk ∧ x.1 ≠ bl0)
+    (hG : GlMem m bk bl0 gl0) (hkw : ∀ blk, m[bk]? = some blk → blk.writable = true) (hne : gl0 ≠ [] → bk ≠ bl0) (hd : ∀ x, x ∈ gl0 → x.1 ≠ bk ∧ x.1 ≠ bl0)
     (ablk0 : Block) (ha1 : m[fa]? = some ablk0) (ha2 : ablk0.live = true) (ha3 : ablk0.writable = true) (ha4 : ablk0.cells = []) (ha5 : ablk0.slots.length = 7 * cap)
     (fuel : Nat) (hf : gl0.length + es.length + us.length + 2 < fuel) :
     ∃ m' loc' bl' gl' fa', exec fuel LeafFns.add_new_groups.body
@@ -477,7 +464,9 @@ theorem add_new_groups_exec (m : Mem) (bk bl0 fa cell bu bua be bea : Nat) (us e
       (∀ j (h : j < (selBy (agP us) es es.length).length),
         EntMem m' fa' (7 * (start + j)) (Econf.cpyEntry ((selBy (agP us) es es.length)[j])) [bk, bl']) ∧
       (∀ b, b < m.length → b ∉ [bk, bl0, fa, cell] → m'[b]? = m[b]?) ∧ m.length ≤ m'.length ∧
-      (bl' = bl0 ∨ m.length ≤ bl') ∧ fa' ≠ bk ∧ fa' ≠ bl' := by
+      (bl' = bl0 ∨ m.length ≤ bl') ∧ fa' ≠ bk ∧ fa' ≠ bl' ∧
+      (∀ kb blk, m[bk]? = some kb → m'[bk]? = some blk → KfKeep kb blk) ∧
+      (gl' ≠ [] → bk ≠ bl') ∧ (∀ x, x ∈ gl' → x.1 ≠ bk ∧ x.1 ≠ bl') := by
   have hss := C.ssmall
   have wS : wrapTo .u64 (start : Int) = (start : Int) := wrapTo_u64_small _ (by omega) (by omega)
   have w0 : wrapTo .u64 0 = 0 := wrapTo_u64_small 0 (by decide) (by decide)
@@ -500,7 +489,7 @@ theorem add_new_groups_exec (m : Mem) (bk bl0 fa cell bu bua be bea : Nat) (us e
       { mem := m, loc := agLoc bk cell bu be start start 0 .undef .undef .undef } := by
     rw [hsel0]
     refine ⟨⟨.undef, .undef, .undef, by simp⟩, fun b _ _ => rfl, Nat.le_refl _, ?_, ⟨ablk0, ha1, ha2, ha3, ha4, ha5, fun k _ => rfl⟩⟩
-    exact ⟨bl0, gl0, hG, Or.inl rfl, hkw, hne, hd, by simp, by simp, by simp⟩
+    exact ⟨bl0, gl0, hG, Or.inl rfl, KfKeep.same hkw rfl, hne, hd, by simp, by simp, by simp⟩
   obtain ⟨R, hloop, hinvR⟩ := ag_loop C fuel hf _ hinv0
   obtain ⟨v7, v8, v9, hlocR⟩ := hinvR.loc
   obtain ⟨memR, locR⟩ := R
@@ -539,7 +528,7 @@ theorem add_new_groups_exec (m : Mem) (bk bl0 fa cell bu bua be bea : Nat) (us e
       fun b hb hav => hagree b hb (by simp only [List.mem_cons, List.not_mem_nil, or_false, not_or] at hav ⊢; exact ⟨hav.1, hav.2.1, hav.2.2.1⟩), hgrows, d2, C.fa_ne.1, by
         rcases d2 with e | e
         · rw [e]; exact C.fa_ne.2
-        · have := C.fa_lt; omega⟩
+        · have := C.fa_lt; omega, d3, d4, d5⟩
   · -- the array is cut to its final size: a new block, the cell points to it
     have hroom := C.room
     have hcs := C.csmall
@@ -597,8 +586,7 @@ theorem add_new_groups_exec (m : Mem) (bk bl0 fa cell bu bua be bea : Nat) (us e
     have hcell' : (List.set (memR.set fa { ablk with live := false } ++ [({ cells := [], slots := ablk.slots.take (7 * (start + (selBy (agP us) es es.length).length)) } : Block)]) cell { cblk with slots := cblk.slots.set 0 (.ptr memR.length 0) })[cell]? = some { cblk with slots := cblk.slots.set 0 (.ptr memR.length 0) } := by
       rw [List.getElem?_set_self (by rw [hlen1]; omega)]
     have hbkR : bk < memR.length := by have := C.bk_lt; omega
-    obtain ⟨gblk, g1, _⟩ := d1.arr
-    have hblR : bl' < memR.length := (List.getElem?_eq_some_iff.1 g1).1
+    have hblR : bl' < memR.length := d1.bl_lt
     have hbl'fa : bl' ≠ fa := by
       rcases d2 with e | e
       · rw [e]; exact Ne.symm C.fa_ne.2
@@ -615,7 +603,8 @@ theorem add_new_groups_exec (m : Mem) (bk bl0 fa cell bu bua be bea : Nat) (us e
       ⟨_, hcell', c2, by simp [List.getElem?_set, hsl]⟩,
       ⟨_, hnew, rfl, fun k hk => by
         show (ablk.slots.take (7 * (start + (selBy (agP us) es es.length).length)))[k]? = _
-        rw [List.getElem?_take_of_lt (by omega)]; exact a6 k hk⟩, ?_, ?_, by rw [List.length_set, hlen1]; omega, d2, by omega, by omega⟩
+        rw [List.getElem?_take_of_lt (by omega)]; exact a6 k hk⟩, ?_, ?_, by rw [List.length_set, hlen1]; omega, d2, by omega, by omega,
+      fun kb blk hk hb => d3 kb blk hk (by rw [← hget bk hbkR (Ne.symm C.fa_ne.1) (Ne.symm hcav.1)]; exact hb), d4, d5⟩
     · intro j hj
       refine (d8 j hj).reblock a1 hnew rfl (fun k hk => ?_) (fun b str hc _ => hstr b str hc) (fun b _ hb => hb) ?_
       · show (ablk.slots.take (7 * (start + (selBy (agP us) es es.length).length)))[7 * (start + j) + k]? = _
@@ -633,7 +622,7 @@ theorem add_new_groups_exec (m : Mem) (bk bl0 fa cell bu bua be bea : Nat) (us e
 theorem C_add_new_groups (m : Mem) (bk bl0 fa cell bu bua be bea : Nat) (us es : List Econf.Entry) (gl0 : List (Nat × List UInt8)) (cap start : Nat)
     (C : AgCtx m bk bl0 fa cell bu bua be bea us es gl0.length cap start)
     (hcw : ∀ cblk, m[cell]? = some cblk → cblk.writable = true ∧ cblk.cells = [])
-    (hG : GlMem m bk bl0 gl0) (hkw : ∀ blk, m[bk]? = some blk → blk.writable = true) (hne : bk ≠ bl0) (hd : ∀ x, x ∈ gl0 → x.1 ≠ bk ∧ x.1 ≠ bl0)
+    (hG : GlMem m bk bl0 gl0) (hkw : ∀ blk, m[bk]? = some blk → blk.writable = true) (hne : gl0 ≠ [] → bk ≠ bl0) (hd : ∀ x, x ∈ gl0 → x.1 ≠ bk ∧ x.1 ≠ bl0)
     (ablk0 : Block) (ha1 : m[fa]? = some ablk0) (ha2 : ablk0.live = true) (ha3 : ablk0.writable = true) (ha4 : ablk0.cells = []) (ha5 : ablk0.slots.length = 7 * cap)
     (fuel : Nat) (hf : gl0.length + es.length + us.length + 2 < fuel) :
     ∃ m' loc' bl' gl' fa', exec fuel LeafFns.add_new_groups.body
@@ -645,7 +634,9 @@ theorem C_add_new_groups (m : Mem) (bk bl0 fa cell bu bua be bea : Nat) (us es :
       (∃ ablk', m'[fa']? = some ablk' ∧ ablk'.live = true ∧ ∀ k, k < 7 * start → ablk'.slots[k]? = ablk0.slots[k]?) ∧
       (∀ j (h : j < (Econf.addNewGroups us es).length), EntMem m' fa' (7 * (start + j)) ((Econf.addNewGroups us es)[j]) [bk, bl']) ∧
       (∀ b, b < m.length → b ∉ [bk, bl0, fa, cell] → m'[b]? = m[b]?) ∧ m.length ≤ m'.length ∧
-      (bl' = bl0 ∨ m.length ≤ bl') ∧ fa' ≠ bk ∧ fa' ≠ bl' := by
+      (bl' = bl0 ∨ m.length ≤ bl') ∧ fa' ≠ bk ∧ fa' ≠ bl' ∧
+      (∀ kb blk, m[bk]? = some kb → m'[bk]? = some blk → KfKeep kb blk) ∧
+      (gl' ≠ [] → bk ≠ bl') ∧ (∀ x, x ∈ gl' → x.1 ≠ bk ∧ x.1 ≠ bl') := by
   obtain ⟨m', loc', bl', gl', fa', hex, hG', hn, hc, ha, hE, hfr, hlen', hextra⟩ :=
     add_new_groups_exec m bk bl0 fa cell bu bua be bea us es gl0 cap start C hcw hG hkw hne hd ablk0 ha1 ha2 ha3 ha4 ha5 fuel hf
   have hm := agSel_model us es
